@@ -7,12 +7,13 @@ CONSTANTS
   MaxNr = 2
   MinAge = "zero"
   MaxAge = "inf"
-  MaxNrEquality = TRUE
+  MaxNrEquality = FALSE
   MaxSerial = 99
   MaxSession = 99
   DeltaChoices = {}
-  TruncateOnCreate = FALSE
-  RemoveOldFirst = FALSE
+  TruncateOnCreate = TRUE
+  RemoveTmpFirst = TRUE
+  RemoveOldFirst = TRUE
   MaxFaults = 99
 SPECIFICATION TraceSpec
 INVARIANT FilesAgree
